@@ -100,6 +100,8 @@ type Engine struct {
 	effectMatches map[string]int
 	noInline      map[string]bool // full names of callees that effect patterns speak about: they must stay events
 	quiet         int
+	arrCap        map[*Arr]string
+	trivial       []string
 }
 
 func (e *Engine) bv() bool { return e.cfg.Arith == "bv" }
@@ -249,6 +251,12 @@ func (e *Engine) srcKey(pos token.Pos) string {
 }
 
 func (e *Engine) oblige(kind, label, reach, goal string, pos token.Pos) *Oblig {
+	if e.pure == 0 && e.quiet == 0 && goal == "true" && reach != "false" && (kind == "ensures" || kind == "effect") {
+		// syntactically true after simplification: nothing to send to a solver, but the clause counts as established
+		// (it is entered in the baseline so that a later failure of the same clause is recognised)
+		n := fnDisplayName(e.top) + "#" + kind + ":" + label
+		e.trivial = append(e.trivial, n)
+	}
 	if e.pure > 0 || goal == "true" || reach == "false" {
 		return nil
 	}
